@@ -308,7 +308,9 @@ def judge(ctx, record, answers):
             verdict = "differs"
             known = [f for f in feats if f in C13_FINDINGS]
             if path.startswith("gen_params vs"):
-                ctx.oracle_fail(known[0] if known else "history-changes-output",
+                # (the .json reader re-orders the nodes by key: without a history this is an insertion-order effect)
+                ctx.oracle_fail(known[0] if known else ("history-changes-output" if kind in ("history", "repeat")
+                                                       else "insertion-changes-output"),
                                 "%s: %s" % (path, describe_diff(base, var)), replay)
                 continue
             if not known and kind == "definitions" and _ff_after_itp(record.get("variant")):
